@@ -104,28 +104,59 @@ def edge_cover_paths(g, max_len=40, max_paths=None, rng=None, skip_self_loops=Fa
         return s, p
 
     paths = []
+    # successor lookup for "walk to the nearest state that still has an uncovered out-edge"
+    has_unc = defaultdict(int)
+    for (s, k) in uncovered:
+        has_unc[s] += 1
+
+    def take(path, s, k):
+        path.append((s, k))
+        if (s, k) in uncovered:
+            uncovered.discard((s, k))
+            has_unc[s] -= 1
+        return g.edges[s][k][2]
+
+    def bridge(cur, limit):
+        """shortest edge sequence from cur to a state with an uncovered out-edge (BFS, depth<=limit)"""
+        seen = {cur: None}
+        dq = deque([(cur, 0)])
+        while dq:
+            s, dpt = dq.popleft()
+            if has_unc.get(s, 0) > 0 and s != cur:
+                p = []
+                while seen[s] is not None:
+                    ps, k = seen[s]
+                    p.append((ps, k))
+                    s = ps
+                p.reverse()
+                return p
+            if dpt >= limit:
+                continue
+            for k, (act, args, dst) in enumerate(g.edges.get(s, ())):
+                if dst not in seen:
+                    seen[dst] = (s, k)
+                    dq.append((dst, dpt + 1))
+        return None
+
     while uncovered and (max_paths is None or len(paths) < max_paths):
-        s0, k0 = next(iter(uncovered))
+        s0, k0 = min(uncovered) if len(uncovered) < 64 else next(iter(uncovered))
         init, pre = prefix_to(s0)
         path = list(pre)
-        cur = s0
-        # extend greedily along uncovered edges
+        cur = take(path, s0, k0)
         while len(path) < max_len:
             cand = [k for k in range(len(g.edges.get(cur, ()))) if (cur, k) in uncovered]
-            if not cand:
+            if cand:
+                cur = take(path, cur, cand[0])
+                continue
+            br = bridge(cur, min(4, max_len - len(path) - 1))
+            if not br:
                 break
-            k = cand[0] if (cur, k0) not in uncovered or cur != s0 else k0
-            if cur == s0 and (s0, k0) in uncovered:
-                k = k0
-            path.append((cur, k))
-            uncovered.discard((cur, k))
-            cur = g.edges[cur][k][2]
-        if (s0, k0) in uncovered:
-            # path was too long to include it: force it
-            path = list(pre) + [(s0, k0)]
-            uncovered.discard((s0, k0))
-        for (s, k) in path:
-            uncovered.discard((s, k))
+            for (s, k) in br:
+                cur = take(path, s, k)
+        for (s, k) in pre:
+            if (s, k) in uncovered:
+                uncovered.discard((s, k))
+                has_unc[s] -= 1
         paths.append((init, [g.edges[s][k] for (s, k) in path]))
     return paths
 
